@@ -202,6 +202,7 @@ func (pc *ProtoCtx) Build(st map[string]interface{}) ([]byte, M, error) {
 		if hosts == nil {
 			hosts = [][]string{}
 		}
+		lp["reach"] = false // replaced by the observed result of the attempt in the trace specification
 		lp["pol"] = M{"tokenAuth": cfg.TokenAuth, "sel": cfg.Sel, "hosts": hosts, "user": userSyms, "name": name, "port": port,
 			"tokHost": tokHost, "verifyIp": cfg.VerifyIp, "tokAddr": tokAddr, "xff": xffList(s.Tun.UseXFF), "peer": addrRec(peerIP)}
 	case "data":
